@@ -99,3 +99,8 @@ Definition writes_cell (c : memcfg) (w : wreq) (x : Z) : Prop :=
 (** * Instances *)
 Definition rv_width (nbits : Z) : Prop := nbits = 8 \/ nbits = 16 \/ nbits = 32 \/ nbits = 64.
 Definition rv_k (nbits : Z) : nat := Z.to_nat (nbits / 8).
+
+(* well-formed configurations: positive cell width, and — when addresses wrap — a range that
+   lies inside [0, 2^alen), so that every valid address is its own effective address *)
+Definition cfg_wf (c : memcfg) : Prop :=
+  0 < cw c /\ 0 <= alen c /\ 0 <= alo c /\ (aovf c = true -> ahi c <= 2 ^ alen c).
